@@ -247,6 +247,25 @@ def run(ctx):
         cmds.append(pyside.cmd_split(s, d)); exp.append(pyside.impl_split(s, d))
         tags.append(("_split_keyvals", repr((s, d))))
 
+    # supplied dialects whose "multival separator" is not a comma: the parser splits values on "," whatever it says
+    for i in range(600 if not ctx.thorough else 10000):
+        s = "".join(r.choice(alph + ["|", "a|b", ","]) for _ in range(r.randrange(0, 14)))
+        d = dict(r.choice(ds))
+        d["multival separator"] = r.choice(["|", "| ", ";"])
+        res.evaluations += 1
+        res.count("multival_separator_" + d["fmt"])
+        try:
+            a, dd = parser._split_keyvals(s, dialect=copy.deepcopy(d))
+            if any(not isinstance(v, list) or any(not isinstance(x, str) for x in v) for v in a._d.values()):
+                res.oracle_failures.append(("parser returned a value that is not a list of strings",
+                                            {"attribute_column": s, "dialect": d}))
+        except Exception as ex:
+            res.oracle_failures.append(("parsing raised %r" % ex, {"attribute_column": s, "dialect": d}))
+        cmds.append(pyside.cmd_split(s, d)); exp.append(pyside.impl_split(s, d))
+        tags.append(("_split_keyvals(multival separator)", repr((s, d))))
+        mp = rand_mapping(r, "gff3" if d["fmt"] == "gff3" else "gtf")
+        cmds.append(pyside.cmd_recon(mp, d)); exp.append(pyside.impl_recon(mp, d))
+        tags.append(("_reconstruct(multival separator)", repr((mp, d))))
     # supplied dialects with "leading semicolon" set (the remaining dialect key; parser.py L228-244)
     for i in range(1500 if not ctx.thorough else 30000):
         s = "".join(r.choice(alph) for _ in range(r.randrange(0, 14)))
